@@ -637,10 +637,11 @@ fn local(m: &Model, ctx: &mut Ctx, consts: &dyn Fn(&str) -> Option<Val>) {
                     let mut g = BTreeMap::new();
                     if which.contains("tld-m1") {
                         g.insert("generated".to_string(), Val::some(Val::Str("TEXT-M1".into())));
-                        g.insert("warnings".to_string(), Val::List(vec![Val::Sym("W-m1".into())]));
+                        g.insert("warnings".to_string(), Val::List(vec![Val::Sym("W-mod".into())]));
                     } else {
                         g.insert("generated".to_string(), Val::none());
-                        g.insert("warnings".to_string(), Val::List(vec![Val::Sym("W-m2".into())]));
+                        // an equal warning (two definitions of the same unsupported kind): it accounts for another definition
+                        g.insert("warnings".to_string(), Val::List(vec![Val::Sym("W-mod".into())]));
                     }
                     Some(Ok(okv(Val::Ctor("GeneratedModule".into(), vec![], g))))
                 }
@@ -660,13 +661,12 @@ fn local(m: &Model, ctx: &mut Ctx, consts: &dyn Fn(&str) -> Option<Val>) {
                 let Some(Val::Ctor(_, _, fields)) = p.first() else { unreachable!() };
                 let warns = fields.get("warnings").map(|v| v.show()).unwrap_or_default();
                 let text = fields.get("generated").map(|v| v.show()).unwrap_or_default();
-                for (w, key, msg) in [
-                    ("W-m1", "module-warnings-unconditional", "the warnings of a generated module"),
-                    ("W-m2", "module-warnings-unconditional", "the warnings of a module that produced no output"),
-                    ("W-validator", "validator-warnings-unconditional", "the validator's warnings"),
+                for (w, n, key, msg) in [
+                    ("W-mod", 2, "module-warnings-unconditional", "the (equal) warnings of the module that produced text and of the module that produced none"),
+                    ("W-validator", 1, "validator-warnings-unconditional", "the validator's warnings"),
                 ] {
-                    if warns.matches(w).count() != 1 {
-                        ctx.violate("C10.local", key, &f.file, f.line, &format!("internal_compile: {} must reach the result exactly once (result warnings: {})", msg, warns));
+                    if warns.matches(w).count() != n {
+                        ctx.violate("C10.local", key, &f.file, f.line, &format!("internal_compile: {} must each reach the result exactly once (result warnings: {})", msg, warns));
                     }
                 }
                 if !text.contains("TEXT-M1") {
@@ -677,6 +677,8 @@ fn local(m: &Model, ctx: &mut Ctx, consts: &dyn Fn(&str) -> Option<Val>) {
             Err(e) => ctx.fail_closed("C10.local", &format!("[internal_compile]: {}", e)),
         }
     }
+    // the formatting step between internal_compile and the caller hands every warning on
+    crate::rules::c20::fmt_keeps(m, ctx, "C10.local");
     // a backend that generated nothing for a module still returns that module's warnings
     for f in m.fns.iter().filter(|f| f.name == "generate_module" && f.module.starts_with("generator::")) {
         ctx.oblige("C10.local", &format!("{}:warnings-returned", f.key), true);
